@@ -7,7 +7,9 @@ import random
 from . import core, fesrv, tlc
 
 HEAD = ('import "std/io";\nfn id(v: i32) -> i32 { return v; }\nfn idu32(v: u32) -> u32 { return v; }\n'
-        'fn idu64(v: u64) -> u64 { return v; }\nfn idi64(v: i64) -> i64 { return v; }\n')
+        'fn idu64(v: u64) -> u64 { return v; }\nfn idi64(v: i64) -> i64 { return v; }\n'
+        'fn push(r: &\'[]i32, v: i32) -> i32 {\n    append(r, v);\n    return len(r) - 1;\n}\n'
+        'fn pushm(r: &\'[]i32, v: i32) -> i32 {\n    append(r, v);\n    return 0 - 1;\n}\n')
 
 
 def body_lines(case):
@@ -58,6 +60,10 @@ def body_lines(case):
             b.append("    x[%d] = %d;" % (e["v"], e["w"]))
         elif k == "app":
             b.append("    append(&'x, %d);" % e["w"])
+        elif k == "rdp":
+            b.append("    io::Println(x[push(&'x, %d)]);" % e["w"])
+        elif k == "rdpn":
+            b.append("    io::Println(x[pushm(&'x, %d)]);" % e["w"])
         elif k == "len":
             b.append("    io::Println(len(x));")
         elif k in ("xset", "ifxset"):
@@ -105,7 +111,7 @@ def klass(case):
     """Spec-level class of a scenario: how the failing index was produced."""
     ks = [e["k"] for e in case["events"]]
     tags = []
-    for t, names in (("reassigned", ("set", "inc")), ("branch", ("ifset",)), ("loop", ("loop",)), ("append", ("app",)),
+    for t, names in (("reassigned", ("set", "inc")), ("branch", ("ifset",)), ("loop", ("loop",)), ("append", ("app", "rdp", "rdpn")),
                      ("newvalue", ("xset", "ifxset")),
                      ("write", ("wri", "wrl"))):
         if any(k in names for k in ks):
